@@ -10,61 +10,61 @@ CHECKS = {
  "C01": C("Coq proof: verified rewrite-step checker (rule_ok_sound, step_in_context_sound) + OR-factoring + translation validation of every logged real rewrite step; optimized-vs-unoptimized differential on generated programs",
           "Theorems over the plan language of coq/Plan.v: every rewrite step accepted by the verified checker preserves the value of the whole plan on all inputs and never turns a defined query into an error; every _simplify_up/_simplify_down step of the fragment logged from the real optimizer is exported and fed to the extracted checker on every run (unjustified step = broken tie, then the two plans are executed to find a failing input). Partial: rule families outside the fragment are covered by the differential only.",
           "den of Plan.v models pandas on integer-valued data with missing values.", "DESIGN.md section 6 C01"),
- "C03": C("Coq proof: or_factoring_sound (all And/Or trees, Kleene 3-valued), dnf_sound / refuted corner, filter-squash schema S10, T-GEN obligation filter_flags_reviewed over the regenerated class table; exhaustive-in-bound correspondence of rewrite_filters; scenario grid vs pandas",
+ "C03": C("Coq proof: or_factoring_sound (all And/Or trees, Kleene 3-valued), dnf_sound / refuted corner, filter-squash schema S10, T-GEN obligation filter_flags_reviewed over the regenerated class table; exhaustive-in-bound correspondence of rewrite_filters; scenario grid vs pandas; cast grid (filters above every numeric astype on wrapping/rounding data); regression corpus D46-D48, D84",
           "OR-factoring proved for every predicate tree and every three-valued valuation and compared exhaustively (all trees up to 4/5 leaves) with the real rewrite_filters; reader filters in DNF proved equal to pandas for !=-free predicates (the != corner is a proved refutation = known finding D7); filter squashing validated step-by-step by the verified checker; filters crossing every operator kind x predicate x consumer x nulls and the full join table are compared with pandas.",
           "Structural equality stands for _name equality (C08).", "DESIGN.md section 6 C03"),
- "C04": C("Coq proof: projection-pushdown schemas S1-S9 of the verified step checker (values, labels, order, definedness) + schema_sound; translation validation of logged steps; scenario grid and widening differential",
+ "C04": C("Coq proof: projection-pushdown schemas S1-S9 of the verified step checker (values, labels, order, definedness) + schema_sound; translation validation of logged steps; scenario grid and widening differential; source sweep (8 source kinds x ordered selections of unsorted labels); regression corpus D52, D54-D65",
           "Every projection-pushdown step of the fragment produced by the real optimizer is validated by the verified checker (theorems: value, labels and order preserved, no column missing/duplicated, also inside a context); operators outside the fragment (merge suffixes, prefix/suffix, groupby/sort/shuffle keys ...) by an operator x selection x consumer grid against pandas; adding unused source columns must not change results.",
           "", "DESIGN.md section 6 C04"),
- "C05": C("Coq proof: determinacy / progress / complete_runs_agree over arbitrary dependency-respecting schedules + disk_route; per-graph certificates by verified wf_check; randomized and adversarial schedules with argument fingerprints on the real graphs",
+ "C05": C("Coq proof: determinacy / progress / complete_runs_agree over arbitrary dependency-respecting schedules + disk_route; per-graph certificates by verified wf_check; randomized and adversarial schedules with argument fingerprints on the real graphs; demand-driven (depth-first from the outputs) schedule; disk shuffles with max_branch; caller's source objects fingerprinted before from_pandas",
           "Determinacy and deadlock-freedom are proved for every well-formed graph and every schedule; the hypothesis (pure task functions) is observed on the real system: each workload graph is executed under FIFO/LIFO/reverse/random topological orders with fingerprints of every task argument before and after the call, and under the threaded scheduler with up to 16 threads.",
           "Real thread interleavings, the GIL, partd I/O: observed only.", "DESIGN.md section 6 C05"),
  "C06": C("Coq proof (partial: merge, groupby, set_index divisions are outside the model): truthfulness of the reported divisions preserved by every modelled derivation (partition selections, partitionwise operators, fused reads, repartition-to-fewer, head/tail, concat) for all divisions/partitions/selections, refutations of the pre-fix formulas, length push-down schema S13, repartition partition counts; T-GEN obligations (no raw operand _divisions() call, length-preserving flags); T-LAYER correspondence of the real _divisions() formulas with the extracted model; differential: reported npartitions/divisions/lengths vs every computed partition at 5 plan stages",
           "19 theorems in coq/PropC06.v over Divisions.v (truthful = the property's own statement); the real Partitions/PartitionsFiltered/BlockwiseHead/Head/Tail/RepartitionToFewer/Concat/FusedIO _divisions() are compared with the extracted model on ~1200 generated (divisions, selection/boundaries/operands) cases per run, a disagreement is tested on the computed partitions with the verified truthfulb; divisions/npartitions of ~60 derivations x 4 index dtypes (duplicates straddling borders) x partitionings, the same derivations on partition selections, index merges against single-partition frames, presorted pieces, and every variable of generated programs are compared at logical/simplified/lowered/optimized/fused stage with the index range and count of each computed partition; len/shape/size from metadata vs computed.",
           "sorted_division_locations (dask) is an oracle; merge/groupby/set_index divisions are covered by the differential only.", "DESIGN.md section 6 C06"),
- "C07": C("Coq proof: schema_sound and schema preservation of every accepted rewrite step (Plan.v); differential: _meta vs each computed partition on dtype mixes incl. empty / all-null partitions",
+ "C07": C("Coq proof: schema_sound and schema preservation of every accepted rewrite step (Plan.v); differential: _meta vs each computed partition on dtype mixes incl. empty / all-null partitions; label indexing with column indexers; regression corpus D76-D78",
           "For the fragment: the static schema equals the schema of the computed value and optimization never changes it (proved). For everything else: container kind, labels, order, names and dtype kinds of _meta vs every computed partition and the final result for ~65 derivations over int/float/bool/str/category/datetime columns, at every stage.",
           "_meta derivation by running pandas on stand-ins is not modelled.", "DESIGN.md section 6 C07"),
- "C09": C("Coq proof: wf_check soundness (closed, acyclic, unique keys, outputs computable) as per-graph certificate; pairwise layer conflicts (also on the C08 catalogue and on two variants of one operation in one graph), planner-object scan, serialization guard on every real graph",
+ "C09": C("Coq proof: wf_check soundness (closed, acyclic, unique keys, outputs computable) as per-graph certificate; pairwise layer conflicts (also on the C08 catalogue and on two variants of one operation in one graph), planner-object scan, serialization guard on every real graph; staged shuffles to fewer/equal/more outputs, joint repartitionings",
           "Every graph of generated programs x 6 stages plus imported / partition-filtered / nested-fused sources is exported with a candidate topological order and certified by the extracted verified wf_check; layers of all expressions are compared pairwise for conflicting tasks under one key; task tuples are scanned for expression/collection objects and pickled under dask-expr-no-serialize.",
           "Key extraction from task tuples follows dask.core semantics (harness/graphs.py).", "DESIGN.md section 6 C09"),
- "C10": C("Coq proof (tree_layer_correct, unbounded in partitions and split_every; staged_route unbounded in max_branch) + exhaustive-in-bound layer correspondence + knob-grid differential",
+ "C10": C("Coq proof (tree_layer_correct, unbounded in partitions and split_every; staged_route unbounded in max_branch) + exhaustive-in-bound layer correspondence + knob-grid differential; presorted fast path (MinMax.v theorems, T-LAYER of _calculate_divisions); dropna=False and order-dependent groupbys; regression corpus D83",
           "Theorems in coq/PropC10.v over the executable model of TreeReduce._layer (every partition count, every split_every>=2 or False); model tied to /repo by comparing the real _layer dict with the extracted model for every (n, split_every) in the bound, and the property's own oracle (knob grid vs knob-free baseline) on the real implementation.",
           "pandas chunk/combine/aggregate functions enter as the hypothesis agg_combine (proved for sum/count/min/max/len over Z with NA).", "DESIGN.md section 6 C10"),
- "C12": C("Coq proof: simple_route, staged_route (unbounded: all n_in<=n_out, branch factors, stage counts, output subsets, regroup step), disk_route, shuffle_permutation + exhaustive-in-bound layer correspondence + data oracle",
+ "C12": C("Coq proof: simple_route, staged_route (unbounded: all n_in<=n_out, branch factors, stage counts, output subsets, regroup step), disk_route, shuffle_permutation + exhaustive-in-bound layer correspondence + data oracle; regression corpus D82",
           "All four routing theorems are proved without bounds over the executable model of SimpleShuffle/TaskShuffle/DiskShuffle._layer; the real layer dict equals the model for all (n_in<=n_out<=N) x max_branch x output subsets; on real data: permutation, co-location and identical partition numbers across frames with int/float/int32/categorical/index keys.",
           "shuffle_group/partd/pandas hashing are modelled by `piece` (rows grouped by (target mod np)//k^stage mod k); stage arithmetic uses floats: contract-checked.", "DESIGN.md section 6 C12"),
- "C13": C("Coq proof: plan_ok_sound (unbounded), planner correct unbounded for strictly increasing divisions, kernel-checked for all vectors over 8 values (484128 triples) otherwise; fewer/more unbounded; exhaustive-in-bound layer correspondence + data oracle + per-run certification of every real plan",
+ "C13": C("Coq proof: plan_ok_sound (unbounded), planner correct unbounded for strictly increasing divisions, kernel-checked for all vectors over 8 values (484128 triples) otherwise; fewer/more unbounded; exhaustive-in-bound layer correspondence + data oracle + per-run certification of every real plan; joint evaluation of several repartitionings of one frame",
           "The model mirrors RepartitionDivisions._layer line by line and equals the real dict on every (old, new, force) over the domain; every real plan is additionally certified by the extracted verified plan_ok; real computed partitions are compared with their target ranges exhaustively; count-based paths proved for all boundary lists meeting a contract that is checked on the real float arithmetic.",
           "boundary_slice/_concat/split_evenly are hypotheses; float boundary arithmetic and np.interp: contract-checked.", "DESIGN.md section 6 C13"),
- "C14": C("Coq proof: fused_task_eq (any nesting depth, DAG shape, broadcast members/deps, every partition index) + refuted wrong binding order; structural correspondence of every real Fused._task; valid_group certificate; fuse-vs-unfused differential per partition",
+ "C14": C("Coq proof: fused_task_eq (any nesting depth, DAG shape, broadcast members/deps, every partition index) + refuted wrong binding order; structural correspondence of every real Fused._task; valid_group certificate; fuse-vs-unfused differential per partition; stacked fusion passes, label indexing and placeholder-like literals inside groups; regression corpus D41, D44, D80",
           "The sub-graph built by Fused._task equals the model for every fused node met (generated programs + targeted nested/broadcast/shared shapes) and every real group is certified by valid_group, the hypothesis of the proved theorem; npartitions, divisions, meta and each output partition are compared between fuse=True and fuse=False.",
           "dask.core.get on the inner dict is modelled by exec_fused.", "DESIGN.md section 6 C14"),
- "C19": C("Coq proof: driver fixpoint / idempotence / termination-from-measure theorems (Drivers.v) and a proved strictly decreasing measure for every accepted rewrite step (PlanMeasure.v); observation of determinism across interpreters and hash seeds",
+ "C19": C("Coq proof: driver fixpoint / idempotence / termination-from-measure theorems (Drivers.v) and a proved strictly decreasing measure for every accepted rewrite step (PlanMeasure.v); observation of determinism across interpreters and hash seeds; optimize() of one query at different moments of a session",
           "A converged driver result is a fixed point and re-optimizing it returns it unchanged (proved for any pass function); every real step of the fragment satisfies the strict schema whose measure provably decreases (also in context); determinism and idempotence of the real optimize() are observed on generated programs, across 4 fresh interpreters with different PYTHONHASHSEED.",
           "That simplify_once is a deterministic function of the plan is observed, not proved; joint measure for rule families outside the fragment is open (partial).", "DESIGN.md section 6 C19"),
 }
 
 CHECKS.update({
- "C02": C("Coq proof: partition-independence theorems (tree reductions for every partitioning and split_every, shuffle co-location, repartition/alignment plans) + exhaustive enumeration of ALL 2^(n-1) cuts of the input (known/unknown divisions, empty partitions, independent cuts of both inputs) vs pandas",
+ "C02": C("Coq proof: partition-independence theorems (tree reductions for every partitioning and split_every, shuffle co-location, repartition/alignment plans) + exhaustive enumeration of ALL 2^(n-1) cuts of the input (known/unknown divisions, empty partitions, independent cuts of both inputs) vs pandas; regression corpus D45, D49-D51",
           "Theorems are universally quantified over the list of partitions (any count, boundaries, empty ones). On the real system ~40 single-input and 13 two-input operator families are computed for every cut of a 6-row (resp. 5x4-row) table, with known and unknown divisions and with empty partitions, and compared with pandas on the concatenated input; explicit refusals (ValueError about divisions) are accepted, silent differences are not. Partial: families whose partition logic is pandas code are covered by the sweep only.",
           "pandas is the oracle.", "DESIGN.md section 6 C02"),
- "C08": C("Coq proof: name_collision_iff (given a collision-free fixed-width token) + reflective obligation heads_unambiguous over the class table regenerated from the source on every run; observation across interpreters / hash seeds / construction orders; task keys compared across catalogue queries",
+ "C08": C("Coq proof: name_collision_iff (given a collision-free fixed-width token) + reflective obligation heads_unambiguous over the class table regenerated from the source on every run; observation across interpreters / hash seeds / construction orders; task keys compared across catalogue queries; single-parameter variants of parquet reads and unsorted / array / map sources in the catalogue; regression corpus D79",
           "The class table (357 classes: name head, arity, flags) is regenerated from /repo by introspection+ast on every run and the obligation that no two classes share a static head and arity outside the reviewed list is re-proved by computation; names of every node and all graph keys of a 75-query catalogue are compared across fresh interpreters with different PYTHONHASHSEED, permuted construction order and interleaved unrelated queries; distinct queries / single-parameter variations / different data must give distinct names.",
           "tokenize being deterministic and collision-free is assumed (hypotheses tok_inj, tok_len).", "DESIGN.md section 6 C08"),
- "C11": C("Coq proof (partial): output-subset selection of every shuffle implementation (staged_route / simple_route for arbitrary subsets), truthful divisions of partition selections / head / tail; differential: partitions / get_partition / to_delayed / head / tail vs the computed partitions for 12 source kinds x 8 operation chains x 9 index sets",
+ "C11": C("Coq proof (partial): output-subset selection of every shuffle implementation (staged_route / simple_route for arbitrary subsets), truthful divisions of partition selections / head / tail; differential: partitions / get_partition / to_delayed / head / tail vs the computed partitions for 12 source kinds x 8 operation chains x 9 index sets; nested heads/tails; T-SRC theorems about the translated Partitions/Head/Tail divisions; regression corpus D42, D43, D72-D74",
           "Every offline source kind (in-memory, array, from_map, delayed, imported graph, legacy, csv, parquet x2, timeseries) x chains with broadcast operands x single/slice/reordered/repeated index sets: the selected partitions equal the corresponding partitions of the computed collection; head(n, npartitions=k) / tail(n) equal the first/last rows; shuffles, hash and broadcast joins with output subsets; sorted heads.",
           "Known finding D22 (head/tail over a fused multi-file parquet read) is replayed and reported as KNOWN-FINDING.", "DESIGN.md section 6 C11"),
- "C15": C("Coq proof: lru_transparent / fail_atomic (any capacity, any history) over the op-for-op model of class LRU, T-GEN obligation state_free_table + exhaustive-in-bound correspondence with the real class; session histories vs fresh-interpreter baselines",
+ "C15": C("Coq proof: lru_transparent / fail_atomic (any capacity, any history) over the op-for-op model of class LRU, T-GEN obligation state_free_table + exhaustive-in-bound correspondence with the real class; session histories vs fresh-interpreter baselines; presorted column sorted both ways with per-partition observations; regression corpus D81",
           "The LRU model equals the real class on ALL operation sequences up to length 4/5 over 3 keys and capacities 1-3; random session histories (build / optimize / compute / discard+gc / injected failures / cache eviction by 13 extra set_index queries / dataset rewrite) over a pool of 26 queries are compared observation by observation with the same query alone in a fresh interpreter.",
           "GC timing and file-system mtime granularity are runtime behaviour (observed).", "DESIGN.md section 6 C15"),
- "C16": C("Coq proof: state_free_table (reflective, over the class table regenerated from the source: no graph/meta/divisions method reads process-global mutable state without fallback) + cache transparency; pickle round trip into a fresh interpreter",
+ "C16": C("Coq proof: state_free_table (reflective, over the class table regenerated from the source: no graph/meta/divisions method reads process-global mutable state without fallback) + cache transparency; pickle round trip into a fresh interpreter; unsorted-index / array / parquet (both readers) sources",
           "T-GEN discovers the module-level mutable containers and which _divisions/_meta/_layer/_task/_lower methods read them; the obligation is re-proved on every run. Every catalogue query in 4 forms (built / optimized / optimized unfused / lowered) is pickled, loaded in a fresh interpreter with a different hash seed and compared (name, npartitions, divisions, schema, result).",
           "pickle and the process boundary are observed.", "DESIGN.md section 6 C16"),
- "C17": C("Coq proof: den_congruence (replacing a sub-plan by anything with the same value leaves every context unchanged) + soundness of optimizing the continuation; per-graph wf certificates (C09); cut-point differential",
+ "C17": C("Coq proof: den_congruence (replacing a sub-plan by anything with the same value leaves every context unchanged) + soundness of optimizing the continuation; per-graph wf certificates (C09); cut-point differential; cuts over projected multi-file parquet reads (fused partitions)",
           "Generated programs x every intermediate variable as cut point x {persist, delayed round trip with/without divisions, legacy round trip, optimize-then-continue}: final result, schema and divisions vs the uncut run.",
           "Cuts that turn a co-aligned operand into a foreign one are alignment queries (C02) and are excluded.", "DESIGN.md section 6 C17"),
- "C18": C("Coq proof: dnf_sound (every filter handed to the reader keeps exactly pandas' rows, incl. missing values), combine_sound, refutation of pushing !=, fused_truthful / fusion_buckets_concat; structural correspondence of _DNF.extract_pq_filters; dataset sweep vs in-memory pandas",
+ "C18": C("Coq proof: dnf_sound (every filter handed to the reader keeps exactly pandas' rows, incl. missing values), combine_sound, refutation of pushing !=, fused_truthful / fusion_buckets_concat; structural correspondence of _DNF.extract_pq_filters; dataset sweep vs in-memory pandas; T-LAYER of _divisions_from_statistics (exhaustive over small statistics) with MinMax.v theorems",
           "The DNF model equals the real class on random comparison/and/or trees; datasets (4 dtypes incl. nulls, 3 index kinds, 1-6 files) x both readers x calculate_divisions x projections x 16 filter trees x user filters x partition subsets: pushed-down plan vs the same work done in memory on the data read in full; round trip; lengths; overwrite refusal; unsorted statistics.",
           "pyarrow's reader semantics is the assumed table arrow_keep, validated on real files.", "DESIGN.md section 6 C18"),
 })
